@@ -184,7 +184,7 @@ static void spit(const std::string& path, const unsigned char* p, size_t n) {
   close(fd);
 }
 static bool exists(const std::string& p) { struct stat st; return stat(p.c_str(), &st) == 0; }
-static uint64_t fnv(const unsigned char* p, size_t n) { uint64_t h = 1469598103934665603ULL; for (size_t i = 0; i < n; i++) { h ^= p[i]; h *= 1099511628211ULL; } return h; }
+static uint64_t fnv(const unsigned char* p, size_t n) { uint64_t h = 14695981039346656037ULL; for (size_t i = 0; i < n; i++) { h ^= p[i]; h *= 1099511628211ULL; } return h; }
 
 // verdict of a table the real reader produced, against the table being written:
 // eq = orders, naxes, knots, coefficients all equal (bitwise); the suffix says whether the extents are equal as well
@@ -382,8 +382,8 @@ int main(int argc, char** argv) {
       // plain byte prefixes of the final file (the literal statement of C08_prefix_safe)
       std::vector<long> ns;
       if (thorough && nblocks <= 20) for (long n = 0; n <= (long)F.size(); n++) ns.push_back(n);
-      else { for (size_t b = 0; b <= nblocks; b++) for (long d = -2; d <= 2; d++) { long n = (long)b * 2880 + d; if (n >= 0 && n <= (long)F.size()) ns.push_back(n); }
-             int extra = nblocks <= 20 ? 400 : 60; for (int j = 0; j < extra; j++) ns.push_back((long)r.below(F.size() + 1));
+      else { for (size_t b = 0; b <= nblocks; b++) for (long d = (nblocks > 40 ? -1 : -2); d <= (nblocks > 40 ? 1 : 2); d++) { long n = (long)b * 2880 + d; if (n >= 0 && n <= (long)F.size()) ns.push_back(n); }
+             int extra = nblocks <= 20 ? 400 : 30; for (int j = 0; j < extra; j++) ns.push_back((long)r.below(F.size() + 1));
              // around the END card of the last two header blocks
              for (long base : {(long)F.size() - 5760, (long)F.size() - 2880 * 4}) if (base >= 0) for (long d = 540; d <= 660; d += 1) ns.push_back(base + d); }
       for (long n : ns) { if (n < 0 || n > (long)F.size()) continue; spit(crash, F.data(), n); fprintf(fc, "P %ld\n", n); fprintf(fi, "%s\n", read_verdict(crash, t).c_str()); stats["crash_byte_prefix"]++; }
